@@ -45,6 +45,7 @@ Theorem C06_prefix_flat : forall e k sid vs p q,
     decode e sid p = DOk (VStruct (firstn i (norm_fields e vs (fields_of e sid)) ++ skipn i ps)) [].
 Proof. exact PrefixProofs.prefix_flat. Qed.
 Theorem C06_code_schemas_prefix_flat : forall sid vs p q, flat_b (fields_of env0 sid) = true ->
+  (length (fields_of env0 sid) + 4 <= 64)%nat ->
   has_type env0 (TStruct sid) (VStruct vs) -> encode env0 sid (VStruct vs) = p ++ q ->
   decode env0 sid p = DErr \/
   exists i h ps, (i <= length (fields_of env0 sid))%nat /\
@@ -53,9 +54,10 @@ Theorem C06_code_schemas_prefix_flat : forall sid vs p q, flat_b (fields_of env0
     Forall2 (fun fd p => prior_ok env0 (fty fd) (fdef fd) p) (fields_of env0 sid) ps /\
     decode env0 sid p = DOk (VStruct (firstn i (norm_fields env0 vs (fields_of env0 sid)) ++ skipn i ps)) [].
 Proof. exact RoundTripExamples.env0_prefix_flat. Qed.
-Theorem C06_code_schemas_flat_types :
-  filter (fun sid => flat_b (fields_of env0 sid)) (seq 0 (length env0)) = [3; 4; 6; 9; 10; 11; 12; 13; 14; 15; 17; 20; 22; 23; 27]%nat.
-Proof. exact RoundTripExamples.env0_flat_types. Qed.
+Theorem C06_code_schemas_flat_examples :
+  forallb (fun sid => flat_b (fields_of env0 sid) && (length (fields_of env0 sid) + 4 <=? 64)%nat)
+          [sid_verifidl_Scalars; sid_endpointf_EndpointF; sid_authf_BasicAuthInfo; sid_authf_TokenKey] = true.
+Proof. exact RoundTripExamples.env0_flat_examples. Qed.
 
 (* a present field whose wire type is not admissible for the IDL type of its tag is rejected: member level, every
    type constructor (scalars, vectors, byte vectors, arrays, maps, structs), behind any unknown fields ... *)
@@ -102,7 +104,7 @@ Theorem C06_prefix_general_partial : forall e k n sid vs p q,
     Forall2 (fun fd pr => prior_ok e (fty fd) (fdef fd) pr) (fields_of e sid) ps /\
     decode e sid p = DOk (VStruct (firstn i (norm_fields e vs (fields_of e sid)) ++ skipn i ps)) [].
 Proof. exact PrefixGenProofs.prefix_general. Qed.
-Theorem C06_code_schemas_prefix_general : forall sid vs p q, tfin 8 env0 (TStruct sid) = true ->
+Theorem C06_code_schemas_prefix_general : forall sid vs p q, fits_model sid = true ->
   has_type env0 (TStruct sid) (VStruct vs) -> encode env0 sid (VStruct vs) = p ++ q ->
   bad (decode env0 sid p) \/
   exists i h ps, (i <= length (fields_of env0 sid))%nat /\
@@ -160,7 +162,7 @@ Print Assumptions C06_bytes_exact. Print Assumptions C06_bytes_truncated.
 Print Assumptions C06_scalar_prefix.
 Print Assumptions C06_prefix_flat.
 Print Assumptions C06_code_schemas_prefix_flat.
-Print Assumptions C06_code_schemas_flat_types.
+Print Assumptions C06_code_schemas_flat_examples.
 Print Assumptions C06_prefix_general_partial.
 Print Assumptions C06_code_schemas_prefix_general.
 Print Assumptions C06_member_prefix.
